@@ -8,12 +8,13 @@ import GoaktVerif.Lemmas.C45.Nodes
 import GoaktVerif.Lemmas.C45.Sink
 import GoaktVerif.Lemmas.C45.Batch
 import GoaktVerif.Lemmas.C45.PMapStep
+import GoaktVerif.Lemmas.C45.PMapU
 
 namespace GoaktVerif.C45
 open GoaktVerif.Model.C45
 
 def middleOK : Node → Bool
-  | .flow _ _ _ | .fused _ _ _ | .batch _ _ _ | .pmap true _ _ _ _ _ => true
+  | .flow _ _ _ | .fused _ _ _ | .batch _ _ _ | .pmap _ _ _ _ _ _ => true
   | _ => false
 
 def MidInv : Node → List Down → List Down → Prop
@@ -21,6 +22,7 @@ def MidInv : Node → List Down → List Down → Prop
   | .fused _ fs s, ins, outs => FusedInv fs s ins outs
   | .batch _ n s, ins, outs => BatchInv n s ins outs
   | .pmap true _ k bad e s, ins, outs => PInv k bad e s ins outs
+  | .pmap false _ k bad e s, ins, outs => PInvU k bad e s ins outs
   | _, _, _ => False
 
 def midF : Node → SemFn
@@ -35,8 +37,57 @@ def isPar : Node → Bool
   | .pmap _ _ _ _ _ _ => true
   | _ => false
 
+/-- the unordered ParallelMap: its outputs are specified as a multiset -/
+def isUnord : Node → Bool
+  | .pmap false _ _ _ _ _ => true
+  | _ => false
+
+/-- the content specification of a middle node: `SpecM` (ordered), `SpecU` for the unordered parallel stage -/
+def NodeSpec (P : List Val → Prop) : Node → List Down → List Down → Prop
+  | .pmap false _ k bad e _, ins, outs => SpecU k bad e P ins outs
+  | nd, ins, outs => SpecM P (midF nd) ins outs
+
+theorem NodeSpec.extend {P : List Val → Prop} {nd : Node} {ins outs : List Down} (h : NodeSpec P nd ins outs)
+    (t : List Down) : NodeSpec P nd (ins ++ t) outs := by
+  cases nd with
+  | pmap o w k b e s =>
+    cases o with
+    | false => exact SpecU.extend k b e h t
+    | true => exact SpecM.extend h t
+  | src s => exact SpecM.extend h t
+  | flow c st s => exact SpecM.extend h t
+  | fused c fs s => exact SpecM.extend h t
+  | batch c n s => exact SpecM.extend h t
+  | sink c s => exact SpecM.extend h t
+
+theorem NodeSpec.wfOut {P : List Val → Prop} {nd : Node} {ins outs : List Down} (h : NodeSpec P nd ins outs) :
+    wf outs = true := by
+  cases nd with
+  | pmap o w k b e s =>
+    cases o with
+    | false => exact SpecU.wfOut h
+    | true => exact SpecM.wfOut h
+  | src s => exact SpecM.wfOut h
+  | flow c st s => exact SpecM.wfOut h
+  | fused c fs s => exact SpecM.wfOut h
+  | batch c n s => exact SpecM.wfOut h
+  | sink c s => exact SpecM.wfOut h
+
+theorem NodeSpec.specM {P : List Val → Prop} {nd : Node} {ins outs : List Down} (h : NodeSpec P nd ins outs)
+    (hu : isUnord nd = false) : SpecM P (midF nd) ins outs := by
+  cases nd with
+  | pmap o w k b e s =>
+    cases o with
+    | false => simp [isUnord] at hu
+    | true => exact h
+  | src s => exact h
+  | flow c st s => exact h
+  | fused c fs s => exact h
+  | batch c n s => exact h
+  | sink c s => exact h
+
 theorem MidInv.specM {P : List Val → Prop} {nd : Node} {ins outs : List Down} (h : MidInv nd ins outs)
-    (hp : (∀ X, P X → Homog X) ∨ isPar nd = false) : SpecM P (midF nd) ins outs := by
+    (hp : (∀ X, P X → Homog X) ∨ isPar nd = false) : NodeSpec P nd ins outs := by
   cases nd with
   | flow c st s => exact FlowInv.specM h
   | fused c fs s => exact FusedInv.specM h
@@ -44,7 +95,10 @@ theorem MidInv.specM {P : List Val → Prop} {nd : Node} {ins outs : List Down} 
   | batch c n s => exact BatchInv.specM h
   | pmap o w k b e s =>
     cases o with
-    | false => exact h.elim
+    | false =>
+      rcases hp with hp | hp
+      · exact SpecU.weaken k b e hp (PInvU.specU k b e h)
+      · simp [isPar] at hp
     | true =>
       rcases hp with hp | hp
       · exact SpecM.weaken hp (PInv.specM k b e h)
@@ -152,6 +206,20 @@ theorem sink_cancel_dies (cfg : Cfg) (s : SinkSt) (ev : Ev)
     | complete => simp [sinkStep] at h
     | error e => simp [sinkStep, SinkSt.shutdown]
 
+/-- the specification of a node does not depend on its (changing) state -/
+theorem nodeSpec_step {P : List Val → Prop} (nd : Node) (ev : Ev) (ins outs : List Down) :
+    NodeSpec P (nd.step ev).1 ins outs ↔ NodeSpec P nd ins outs := by
+  unfold Node.step
+  split
+  · exact Iff.rfl
+  · cases nd with
+    | pmap o w k b e s => cases o <;> exact Iff.rfl
+    | src s => exact Iff.rfl
+    | flow c st s => exact Iff.rfl
+    | fused c fs s => exact Iff.rfl
+    | batch c n s => exact Iff.rfl
+    | sink c s => exact Iff.rfl
+
 /-! ### node-kind independent step lemmas -/
 
 theorem MidInv.alive_of {nd : Node} (hok : middleOK nd = true) : True := trivial
@@ -175,7 +243,10 @@ theorem MidInv.step_down {nd : Node} {ins outs : List Down} (d : Down) (h : MidI
     exact BatchInv.step_down c d h ha' hw
   | pmap o w k b e s =>
     cases o with
-    | false => exact h.elim
+    | false =>
+      have ha' : s.alive = true := ha
+      simp only [Node.step, Node.alive, ha', Bool.not_true, Bool.false_eq_true, if_false]
+      exact PInvU.step_down k b e w d h ha' hw
     | true =>
       have ha' : s.alive = true := ha
       simp only [Node.step, Node.alive, ha', Bool.not_true, Bool.false_eq_true, if_false]
@@ -201,7 +272,10 @@ theorem MidInv.step_req {nd : Node} {ins outs : List Down} (n : Int) (h : MidInv
     exact BatchInv.step_req c n h ha'
   | pmap o w k b e s =>
     cases o with
-    | false => exact h.elim
+    | false =>
+      have ha' : s.alive = true := ha
+      simp only [Node.step, Node.alive, ha', Bool.not_true, Bool.false_eq_true, if_false]
+      exact PInvU.step_req k b e w n h
     | true =>
       have ha' : s.alive = true := ha
       simp only [Node.step, Node.alive, ha', Bool.not_true, Bool.false_eq_true, if_false]
@@ -209,7 +283,7 @@ theorem MidInv.step_req {nd : Node} {ins outs : List Down} (n : Int) (h : MidInv
   | sink c s => exact h.elim
 
 theorem MidInv.wfOut {nd : Node} {ins outs : List Down} (h : MidInv nd ins outs) : wf outs = true :=
-  (MidInv.specM (P := Homog) h (Or.inl fun _ hX => hX)).wfOut
+  NodeSpec.wfOut (MidInv.specM (P := Homog) h (Or.inl fun _ hX => hX))
 
 /-- a worker's reply at an ordered parallel stage -/
 theorem MidInv.step_result {o : Bool} {w : Nat} {k : Int} {b : Option Int} {e : Err} {s : PMapSt}
@@ -218,7 +292,9 @@ theorem MidInv.step_result {o : Bool} {w : Nat} {k : Int} {b : Option Int} {e : 
     MidInv ((Node.pmap o w k b e s).step (.result t.1 (parFn k b e t.2))).1 ins
       (outs ++ ((Node.pmap o w k b e s).step (.result t.1 (parFn k b e t.2))).2.down) := by
   cases o with
-  | false => exact h.elim
+  | false =>
+    simp only [Node.step, Node.alive, ha, Bool.not_true, Bool.false_eq_true, if_false]
+    exact PInvU.step_result k b e w t h ha ht
   | true =>
     simp only [Node.step, Node.alive, ha, Bool.not_true, Bool.false_eq_true, if_false]
     exact PInv.step_result k b e w t h ha ht
@@ -282,7 +358,7 @@ structure GInv (P : List Val → Prop) (input : List Val) (net : Net) : Prop whe
   src : ∃ s, net.nodes[0]? = some (.src s) ∧ Approx (hist net 0) input [] ∧
     (net.aliveAt 1 = true → SrcInv input s (hist net 0))
   mid : ∀ i nd, 0 < i → i + 1 < net.nodes.length → net.nodes[i]? = some nd →
-    middleOK nd = true ∧ SpecM P (midF nd) (insOf net i) (hist net i) ∧
+    middleOK nd = true ∧ NodeSpec P nd (insOf net i) (hist net i) ∧
     (net.aliveAt (i + 1) = true → MidInv nd (insOf net i) (hist net i))
   sink : ∃ c s, net.nodes[net.nodes.length - 1]? = some (.sink c s) ∧
     SinkInv s (insOf net (net.nodes.length - 1))
@@ -389,7 +465,7 @@ theorem GInv.of_frame {P : List Val → Prop} {input : List Val} {net net' : Net
     (hsrc : k = 0 → ∀ s, nd = .src s → ∃ s', (nd.step ev).1 = .src s' ∧ Approx (hist net' 0) input [] ∧
         (net'.aliveAt 1 = true → SrcInv input s' (hist net' 0)))
     (hmid : 0 < k → k + 1 < net.nodes.length →
-        SpecM P (midF nd) ((hist net (k - 1)).take (dpos (k - 1))) (hist net' k) ∧
+        NodeSpec P nd ((hist net (k - 1)).take (dpos (k - 1))) (hist net' k) ∧
         (net'.aliveAt (k + 1) = true → MidInv (nd.step ev).1 ((hist net (k - 1)).take (dpos (k - 1))) (hist net' k)))
     (hsink : k + 1 = net.nodes.length → ∀ c s, nd = .sink c s → ∃ s', (nd.step ev).1 = .sink c s' ∧
         SinkInv s' ((hist net (k - 1)).take (dpos (k - 1)))) :
@@ -435,8 +511,8 @@ theorem GInv.of_frame {P : List Val → Prop} {input : List Val} {net net' : Net
       have hnd : ndi = (nd.step ev).1 := (Option.some.inj hni).symm
       obtain ⟨hok, _, _⟩ := h.mid i nd hi0 hi1 hn
       obtain ⟨h1, h2⟩ := hmid hi0 hi1
-      rw [insOf_frame hf hle i hi0, hnd, (step_midF nd ev).1, (step_midF nd ev).2]
-      exact ⟨hok, h1, h2⟩
+      rw [insOf_frame hf hle i hi0, hnd, (step_midF nd ev).2]
+      exact ⟨hok, (nodeSpec_step nd ev _ _).mpr h1, h2⟩
     · simp only [hik, if_false] at hni
       obtain ⟨hok, hsp, hmi⟩ := h.mid i ndi hi0 hi1 hni
       rw [insOf_frame hf hle i hi0, hins i hik hi0, hother i hik]
